@@ -110,6 +110,10 @@ pub fn reject_candidates(region: &str, join: bool) -> Vec<Frame> {
             // exactly at the size limit of the window (MACPayload 7 + 1 + 51 = 59) and one byte above it
             v.push(d(Fcnt::Rel(1), Tamper::BadMic, 51, vec![]));
             v.push(d(Fcnt::Rel(1), Tamper::BadMic, 52, vec![]));
+            // authentic frames whose MACPayload exceeds the limit by no more than their FOpts length
+            // (7 + 1 + 1 + 51 = 60, 7 + 3 + 1 + 50 = 61): the limit counts the FOpts too
+            v.push(d(Fcnt::Rel(1), Tamper::None, 51, vec![0x06]));
+            v.push(d(Fcnt::Rel(1), Tamper::None, 50, vec![0x06, 0x08, 0x02]));
         }
     }
     v
